@@ -26,7 +26,7 @@ open HashSel (hget hset hdel Ok)
 
 /-! ### keyspace lemmas -/
 
-theorem get_del (db : Db) (k k' : Bytes) : (db.del k).get k' = if k' = k then none else db.get k' := by
+theorem get_del_h (db : Db) (k k' : Bytes) : (db.del k).get k' = if k' = k then none else db.get k' := by
   unfold Db.del Db.get
   rw [List.find?_filter]
   by_cases hk : k' = k
@@ -41,8 +41,8 @@ theorem get_del (db : Db) (k k' : Bytes) : (db.del k).get k' = if k' = k then no
       · simp [h]
     rw [this]; simp [hk]
 
-theorem get_put (db : Db) (k k' : Bytes) (e : Entry) : (db.put k e).get k' = if k' = k then some e else db.get k' := by
-  have h := get_del db k k'
+theorem get_put_h (db : Db) (k k' : Bytes) (e : Entry) : (db.put k e).get k' = if k' = k then some e else db.get k' := by
+  have h := get_del_h db k k'
   unfold Db.put
   by_cases hk : k' = k
   · simp [hk, Db.get]
@@ -73,7 +73,7 @@ theorem live_checkTTL (db : Db) (now : Int) (k : Bytes) : Live (checkTTL db now 
     split at he
     · rename_i d0 hd0
       split at he
-      · simp [get_del] at he
+      · simp [get_del_h] at he
       · simp only at he
         rw [h0] at he
         cases he
@@ -101,11 +101,11 @@ theorem checkTTL_of_live (db : Db) (now : Int) (k : Bytes) (h : Live db now k) :
 
 /-! ### what a hash command sees -/
 
-/-- the hash under `k` as seen by a command at time `now`: `none` missing (or expired), `some none` another type -/
+/-- the hash under `k` as seenH by a command at time `now`: `none` missing (or expired), `some none` another type -/
 def hashAt (db : Db) (now : Int) (k : Bytes) : Option (Option HashT) := getHash (checkTTL db now k).1 k
 
 /-- a missing key reads as the empty hash -/
-def seen : Option (Option HashT) → HashT
+def seenH : Option (Option HashT) → HashT
 | some (some h) => h
 | _ => []
 
@@ -113,21 +113,21 @@ theorem getHash_putHash (db : Db) (k : Bytes) (h : HashT) :
     getHash (putHash db k h) k = if h = [] then none else some (some h) := by
   unfold putHash getHash
   cases h with
-  | nil => simp [get_del]
-  | cons p r => simp [Db.setVal, get_put]
+  | nil => simp [get_del_h]
+  | cons p r => simp [Db.setVal, get_put_h]
 
 theorem get_putHash_other (db : Db) (k k' : Bytes) (h : HashT) (hk : k' ≠ k) : (putHash db k h).get k' = db.get k' := by
   unfold putHash
   split
-  · simp [get_del, hk]
-  · simp [Db.setVal, get_put, hk]
+  · simp [get_del_h, hk]
+  · simp [Db.setVal, get_put_h, hk]
 
 theorem live_putHash (db : Db) (now : Int) (k : Bytes) (h : HashT) (hl : Live db now k) : Live (putHash db k h) now k := by
   intro e d he hd
   unfold putHash at he
   split at he
-  · simp [get_del] at he
-  · simp only [Db.setVal, get_put, if_true] at he
+  · simp [get_del_h] at he
+  · simp only [Db.setVal, get_put_h, if_true] at he
     cases he
     simp only at hd
     cases hg : db.get k with
@@ -145,27 +145,27 @@ theorem hashAt_putHash (db : Db) (now : Int) (k : Bytes) (h : HashT) (hl : Live 
 theorem hashWrite_spec (env : Env) (db : Db) (k : Bytes) (body : HashT → Reply × HashT) :
     (hashAt db env.now k = some none → hashWrite env db k body = (wrongType, (checkTTL db env.now k).1)) ∧
     (hashAt db env.now k ≠ some none →
-      (hashWrite env db k body).1 = (body (seen (hashAt db env.now k))).1 ∧
-      (hashWrite env db k body).2 = putHash (checkTTL db env.now k).1 k (body (seen (hashAt db env.now k))).2) := by
+      (hashWrite env db k body).1 = (body (seenH (hashAt db env.now k))).1 ∧
+      (hashWrite env db k body).2 = putHash (checkTTL db env.now k).1 k (body (seenH (hashAt db env.now k))).2) := by
   unfold hashWrite hashAt
   cases hg : getHash (checkTTL db env.now k).1 k with
-  | none => simp [hg, seen]
+  | none => simp [hg, seenH]
   | some o =>
     cases o with
     | none => simp [hg]
-    | some h => simp [hg, seen]
+    | some h => simp [hg, seenH]
 
 theorem hashRead_spec (env : Env) (db : Db) (k : Bytes) (body : HashT → Reply) :
     (hashRead env db k body).2 = (checkTTL db env.now k).1 ∧
     (hashAt db env.now k = some none → (hashRead env db k body).1 = wrongType) ∧
-    (hashAt db env.now k ≠ some none → (hashRead env db k body).1 = body (seen (hashAt db env.now k))) := by
+    (hashAt db env.now k ≠ some none → (hashRead env db k body).1 = body (seenH (hashAt db env.now k))) := by
   unfold hashRead hashAt
   cases hg : getHash (checkTTL db env.now k).1 k with
-  | none => simp [hg, seen]
+  | none => simp [hg, seenH]
   | some o =>
     cases o with
     | none => simp [hg]
-    | some h => simp [hg, seen]
+    | some h => simp [hg, seenH]
 
 /-! ### the field table: HSET -/
 
@@ -465,7 +465,7 @@ theorem hrandfield_sound_single (h : HashT) (wv : Bool) (obs : Reply) (ha : hran
 theorem hashAt_after_write (env : Env) (db : Db) (k : Bytes) (body : HashT → Reply × HashT)
     (hk : hashAt db env.now k ≠ some none) :
     hashAt (hashWrite env db k body).2 env.now k =
-      if (body (seen (hashAt db env.now k))).2 = [] then none else some (some (body (seen (hashAt db env.now k))).2) := by
+      if (body (seenH (hashAt db env.now k))).2 = [] then none else some (some (body (seenH (hashAt db env.now k))).2) := by
   rw [((hashWrite_spec env db k body).2 hk).2]
   exact hashAt_putHash _ _ _ _ (live_checkTTL db env.now k)
 
@@ -478,16 +478,16 @@ theorem hashAt_after_read (env : Env) (db : Db) (k : Bytes) (body : HashT → Re
 theorem seen_after_write (env : Env) (db : Db) (k : Bytes) (body : HashT → Reply × HashT)
     (hk : hashAt db env.now k ≠ some none) :
     hashAt (hashWrite env db k body).2 env.now k ≠ some none ∧
-    seen (hashAt (hashWrite env db k body).2 env.now k) = (body (seen (hashAt db env.now k))).2 := by
+    seenH (hashAt (hashWrite env db k body).2 env.now k) = (body (seenH (hashAt db env.now k))).2 := by
   rw [hashAt_after_write env db k body hk]
   split
   · rename_i e; exact ⟨by simp, by rw [e]; rfl⟩
-  · simp [seen]
+  · simp [seenH]
 
 /-! ### command level: what HGET answers after HSET (same instant; the passing of time is C06's subject) -/
 
 theorem cmdHGet_eq (env : Env) (db : Db) (c k g : Bytes) (hk : hashAt db env.now k ≠ some none) :
-    (cmdHGet env db [c, k, g]).1 = .bulk (hget (seen (hashAt db env.now k)) g) := by
+    (cmdHGet env db [c, k, g]).1 = .bulk (hget (seenH (hashAt db env.now k)) g) := by
   simp only [cmdHGet]
   exact (hashRead_spec env db k _).2.2 hk
 
@@ -526,16 +526,16 @@ theorem hget_after_hset (env env' : Env) (ht : env'.now = env.now) (db : Db) (c 
 theorem hset_reply (env : Env) (db : Db) (c k f v : Bytes) (rest : List Bytes) (hr : rest.length % 2 = 0)
     (hk : hashAt db env.now k ≠ some none) :
     ∃ n : Nat, (cmdHSet env db (c :: k :: f :: v :: rest)).1 = .int n ∧
-      (seen (hashAt (cmdHSet env db (c :: k :: f :: v :: rest)).2 env.now k)).length =
-        (seen (hashAt db env.now k)).length + n := by
+      (seenH (hashAt (cmdHSet env db (c :: k :: f :: v :: rest)).2 env.now k)).length =
+        (seenH (hashAt db env.now k)).length + n := by
   have hne : (rest.length % 2 != 0) = false := by simp [hr]
   simp only [cmdHSet, hne, Bool.false_eq_true, if_false]
   have hw := seen_after_write env db k
     (fun h => (Reply.int (hsetMany h (f :: v :: rest) 0).2, (hsetMany h (f :: v :: rest) 0).1)) hk
-  refine ⟨(hsetMany (seen (hashAt db env.now k)) (f :: v :: rest) 0).2, ?_, ?_⟩
+  refine ⟨(hsetMany (seenH (hashAt db env.now k)) (f :: v :: rest) 0).2, ?_, ?_⟩
   · rw [((hashWrite_spec env db k _).2 hk).1]
   · rw [hw.2]
-    have := hsetMany_count (seen (hashAt db env.now k)) (f :: v :: rest) 0
+    have := hsetMany_count (seenH (hashAt db env.now k)) (f :: v :: rest) 0
     simp only at this ⊢
     omega
 
@@ -549,25 +549,25 @@ theorem all_none_nil (h : HashT) (hn : ∀ g, hget h g = none) : h = [] := by
 /-- (3) HDEL answers the number of fields removed, leaves exactly the fields not named, and when no field is left the key ceases to
     exist — value and deadline -/
 theorem hdel_command (env : Env) (db : Db) (c k f : Bytes) (fs : List Bytes) (hk : hashAt db env.now k ≠ some none)
-    (ok : Ok (seen (hashAt db env.now k))) :
-    let h := seen (hashAt db env.now k)
+    (ok : Ok (seenH (hashAt db env.now k))) :
+    let h := seenH (hashAt db env.now k)
     let db' := (cmdHDel env db (c :: k :: f :: fs)).2
     ∃ n : Nat, (cmdHDel env db (c :: k :: f :: fs)).1 = .int n ∧
-      (seen (hashAt db' env.now k)).length + n = h.length ∧
-      (∀ g, hget (seen (hashAt db' env.now k)) g = if g ∈ f :: fs then none else hget h g) ∧
+      (seenH (hashAt db' env.now k)).length + n = h.length ∧
+      (∀ g, hget (seenH (hashAt db' env.now k)) g = if g ∈ f :: fs then none else hget h g) ∧
       ((∀ g, g ∈ h.map Prod.fst → g ∈ f :: fs) → db'.get k = none) := by
   intro h db'
   have hw := seen_after_write env db k (fun h => (Reply.int (hdelMany h (f :: fs) 0).2, (hdelMany h (f :: fs) 0).1)) hk
   have hs := (hashWrite_spec env db k (fun h => (Reply.int (hdelMany h (f :: fs) 0).2, (hdelMany h (f :: fs) 0).1))).2 hk
   refine ⟨(hdelMany h (f :: fs) 0).2, ?_, ?_, ?_, ?_⟩
   · simp only [cmdHDel]; rw [hs.1]
-  · show (seen (hashAt (cmdHDel env db (c :: k :: f :: fs)).2 env.now k)).length + _ = _
+  · show (seenH (hashAt (cmdHDel env db (c :: k :: f :: fs)).2 env.now k)).length + _ = _
     simp only [cmdHDel]; rw [hw.2]
     have := hdelMany_count h (f :: fs) 0 ok
     simp only at this ⊢
     omega
   · intro g
-    show hget (seen (hashAt (cmdHDel env db (c :: k :: f :: fs)).2 env.now k)) g = _
+    show hget (seenH (hashAt (cmdHDel env db (c :: k :: f :: fs)).2 env.now k)) g = _
     simp only [cmdHDel]; rw [hw.2]
     exact hdelMany_get h (f :: fs) 0 g ok
   · intro hall
@@ -585,7 +585,7 @@ theorem hdel_command (env : Env) (db : Db) (c k f : Bytes) (fs : List Bytes) (hk
     simp only [cmdHDel]; rw [hs.2]
     simp only
     rw [hnil]
-    simp [putHash, get_del]
+    simp [putHash, get_del_h]
 
 /-! ### invariant: every stored hash has unique fields and is not empty -/
 
@@ -594,7 +594,7 @@ def HashInv (db : Db) : Prop := ∀ k e h, db.get k = some e → e.val = .hash h
 
 theorem inv_del (db : Db) (k : Bytes) (hi : HashInv db) : HashInv (db.del k) := by
   intro k' e h he hv
-  rw [get_del] at he
+  rw [get_del_h] at he
   split at he
   · cases he
   · exact hi k' e h he hv
@@ -610,7 +610,7 @@ theorem inv_putHash (db : Db) (k : Bytes) (h : HashT) (hi : HashInv db) (ok : Ok
   · exact inv_del db k hi
   · rename_i hne
     intro k' e h' he hv
-    simp only [Db.setVal, get_put] at he
+    simp only [Db.setVal, get_put_h] at he
     split at he
     · cases he
       simp only [Value.hash.injEq] at hv
@@ -623,14 +623,14 @@ theorem hashRead_inv (env : Env) (db : Db) (k : Bytes) (body : HashT → Reply) 
   rw [(hashRead_spec env db k body).1]
   exact inv_checkTTL db env.now k hi
 
-theorem seen_ok (db : Db) (k : Bytes) (hi : HashInv db) : Ok (seen (getHash db k)) := by
+theorem seen_ok (db : Db) (k : Bytes) (hi : HashInv db) : Ok (seenH (getHash db k)) := by
   unfold getHash
   cases hg : db.get k with
   | none => exact List.nodup_nil
   | some e =>
     cases hv : e.val with
-    | hash h => simp only [hv, seen]; exact (hi k e h hg hv).1
-    | _ => simp only [hv, seen]; exact List.nodup_nil
+    | hash h => simp only [hv, seenH]; exact (hi k e h hg hv).1
+    | _ => simp only [hv, seenH]; exact List.nodup_nil
 
 theorem hashWrite_inv (env : Env) (db : Db) (k : Bytes) (body : HashT → Reply × HashT)
     (hb : ∀ h, Ok h → Ok (body h).2) (hi : HashInv db) : HashInv (hashWrite env db k body).2 := by
@@ -680,7 +680,7 @@ theorem hash_commands_preserve_inv (name : String) (c : Cmd) (hc : (name, c) ∈
 /-- (5) the four point reads are functions of the same field table: HEXISTS is 1 iff HGET is not nil, HSTRLEN is the length of what HGET
     answers (0 for nil), HLEN is the number of entries (fields are unique: `HashInv`) -/
 theorem read_commands_consistent (env : Env) (db : Db) (c1 c2 c3 c4 k f : Bytes) (hk : hashAt db env.now k ≠ some none) :
-    let h := seen (hashAt db env.now k)
+    let h := seenH (hashAt db env.now k)
     (cmdHGet env db [c1, k, f]).1 = .bulk (hget h f) ∧
     (cmdHExists env db [c2, k, f]).1 = .int (if (hget h f).isSome then 1 else 0) ∧
     (cmdHStrLen env db [c3, k, f]).1 = .int (match hget h f with | some v => v.length | none => 0) ∧
@@ -694,21 +694,21 @@ theorem read_commands_consistent (env : Env) (db : Db) (c1 c2 c3 c4 k f : Bytes)
     command is rejected and the hash is what it was; a missing field (or key) counts as 0 -/
 theorem hincrby_command (env : Env) (db : Db) (c k f d : Bytes) (delta : Int) (hp : parseI64 d = some delta)
     (hk : hashAt db env.now k ≠ some none) :
-    let h := seen (hashAt db env.now k)
+    let h := seenH (hashAt db env.now k)
     let r := cmdHIncrBy env db [c, k, f, d]
     match hcur h f with
-    | none => r.1 = errHashInt ∧ seen (hashAt r.2 env.now k) = h
+    | none => r.1 = errHashInt ∧ seenH (hashAt r.2 env.now k) = h
     | some cur =>
       if StrOps.minI64 ≤ cur + delta ∧ cur + delta ≤ StrOps.maxI64
-      then r.1 = .int (cur + delta) ∧ hget (seen (hashAt r.2 env.now k)) f = some (fmtInt (cur + delta)) ∧
-           ∀ g, g ≠ f → hget (seen (hashAt r.2 env.now k)) g = hget h g
-      else r.1 = errOverflow ∧ seen (hashAt r.2 env.now k) = h := by
+      then r.1 = .int (cur + delta) ∧ hget (seenH (hashAt r.2 env.now k)) f = some (fmtInt (cur + delta)) ∧
+           ∀ g, g ≠ f → hget (seenH (hashAt r.2 env.now k)) g = hget h g
+      else r.1 = errOverflow ∧ seenH (hashAt r.2 env.now k) = h := by
   intro h r
   have hr1 : r.1 = (hincrby h f delta).1 := by
     show (cmdHIncrBy env db [c, k, f, d]).1 = _
     simp only [cmdHIncrBy, hp]; exact ((hashWrite_spec env db k _).2 hk).1
-  have hr2 : seen (hashAt r.2 env.now k) = (hincrby h f delta).2 := by
-    show seen (hashAt (cmdHIncrBy env db [c, k, f, d]).2 env.now k) = _
+  have hr2 : seenH (hashAt r.2 env.now k) = (hincrby h f delta).2 := by
+    show seenH (hashAt (cmdHIncrBy env db [c, k, f, d]).2 env.now k) = _
     simp only [cmdHIncrBy, hp]; exact (seen_after_write env db k _ hk).2
   have hx := hincrby_exact_or_rejected h f delta (parseI64_range d delta hp)
   rw [hr1, hr2]
@@ -728,17 +728,17 @@ theorem hincrby_command (env : Env) (db : Db) (c k f d : Bytes) (delta : Int) (h
 
 /-- (7) HSETNX at command level: sets the field (reply 1) iff it is absent, otherwise answers 0 and changes nothing -/
 theorem hsetnx_command (env : Env) (db : Db) (c k f v : Bytes) (hk : hashAt db env.now k ≠ some none) :
-    let h := seen (hashAt db env.now k)
+    let h := seenH (hashAt db env.now k)
     let r := cmdHSetNx env db [c, k, f, v]
-    ((hget h f).isSome = true → r.1 = .int 0 ∧ seen (hashAt r.2 env.now k) = h) ∧
-    (hget h f = none → r.1 = .int 1 ∧ hget (seen (hashAt r.2 env.now k)) f = some v ∧
-      ∀ g, g ≠ f → hget (seen (hashAt r.2 env.now k)) g = hget h g) := by
+    ((hget h f).isSome = true → r.1 = .int 0 ∧ seenH (hashAt r.2 env.now k) = h) ∧
+    (hget h f = none → r.1 = .int 1 ∧ hget (seenH (hashAt r.2 env.now k)) f = some v ∧
+      ∀ g, g ≠ f → hget (seenH (hashAt r.2 env.now k)) g = hget h g) := by
   intro h r
   have hr1 : r.1 = (hsetnx h f v).1 := by
     show (cmdHSetNx env db [c, k, f, v]).1 = _
     simp only [cmdHSetNx]; exact ((hashWrite_spec env db k _).2 hk).1
-  have hr2 : seen (hashAt r.2 env.now k) = (hsetnx h f v).2 := by
-    show seen (hashAt (cmdHSetNx env db [c, k, f, v]).2 env.now k) = _
+  have hr2 : seenH (hashAt r.2 env.now k) = (hsetnx h f v).2 := by
+    show seenH (hashAt (cmdHSetNx env db [c, k, f, v]).2 env.now k) = _
     simp only [cmdHSetNx]; exact (seen_after_write env db k _ hk).2
   rw [hr1, hr2]
   have hs := hsetnx_spec h f v
@@ -752,7 +752,7 @@ theorem checkTTL_of_wrongtype (db : Db) (now : Int) (k : Bytes) (hk : hashAt db 
   · exact e
   · unfold hashAt at hk
     rw [e] at hk
-    simp [getHash, get_del] at hk
+    simp [getHash, get_del_h] at hk
 
 /-- a key holding another type: every hash command answers WRONGTYPE and the keyspace is unchanged -/
 theorem wrongtype_changes_nothing (env : Env) (db : Db) (k : Bytes) (hk : hashAt db env.now k = some none)
@@ -770,7 +770,7 @@ theorem other_keys_untouched (env : Env) (db : Db) (k k' : Bytes) (hne : k' ≠ 
     (hashWrite env db k bw).2.get k' = db.get k' ∧ (hashRead env db k br).2.get k' = db.get k' := by
   have hc : (checkTTL db env.now k).1.get k' = db.get k' := by
     rcases checkTTL_fst db env.now k with e | e <;> rw [e]
-    simp [get_del, hne]
+    simp [get_del_h, hne]
   constructor
   · by_cases hk : hashAt db env.now k = some none
     · rw [(hashWrite_spec env db k bw).1 hk]; exact hc
@@ -820,7 +820,7 @@ theorem C10_holds : C10_statement := by
     exact hget_after_hset_many env env' ht db c c' k f v rest hr hk g
   · intro h l; have := hsetMany_count h l 0; omega
   · intro h fs g ok; exact ⟨hdelMany_get h fs 0 g ok, by have := hdelMany_count h fs 0 ok; omega⟩
-  · intro db k; simp [putHash, getHash, get_del]
+  · intro db k; simp [putHash, getHash, get_del_h]
 
 /-! ### the hypotheses are satisfiable -/
 
@@ -832,13 +832,13 @@ def exX : Bytes := [120]
 def ex1 : Bytes := [49]
 /-- a two-field hash, one value empty -/
 def exH : HashT := [(exF, []), (exG, ex1)]
-def exDb : Db := [(exK, { val := .hash exH })]
+def exDbHash : Db := [(exK, { val := .hash exH })]
 
 /-- a keyspace with one two-field hash satisfies the invariant, and `hashAt … ≠ some none` holds both for that key and for a missing key -/
-example : HashInv exDb ∧ hashAt exDb 0 exK ≠ some none ∧ hashAt [] 0 exK ≠ some none := by
+example : HashInv exDbHash ∧ hashAt exDbHash 0 exK ≠ some none ∧ hashAt [] 0 exK ≠ some none := by
   refine ⟨?_, by decide, by decide⟩
   intro k e h he hv
-  simp only [exDb, Db.get, List.find?_cons] at he
+  simp only [exDbHash, Db.get, List.find?_cons] at he
   split at he
   · simp only [Option.map_some, Option.some.injEq] at he
     subst he
